@@ -95,6 +95,21 @@ func runCase(c *Case, scratch string) (res result) {
 			res.Outcome = mm.clause
 			return
 		}
+		// several files one level up: a lookup walks them in the iteration order of a Go map, which the harness does
+		// not own - the read is repeated so that every order of two or three files is seen with high probability
+		for r := 0; r < 7 && len(now.l1) >= 2; r++ {
+			got, _, err := w.observe()
+			if err != nil {
+				viol(st.Op, "read-error", "version.Snapshot.Load", fmt.Sprintf("step %d (%s), read %d: %v", i, st.Op, r+2, err))
+				res.Outcome = "read-error"
+				return
+			}
+			if mm := compare(w.model, got); mm != nil {
+				viol(st.Op, mm.clause, mm.site, fmt.Sprintf("step %d (%s), read %d of the same version: %s", i, st.Op, r+2, mm.detail))
+				res.Outcome = mm.clause
+				return
+			}
+		}
 		if st.Op != "compact" {
 			shape += "F"
 			continue
